@@ -640,7 +640,7 @@ def _read_compressed_grain(embedded):
                 ("cost", st.ghost["io"] <= 512 + zmax(z3.IntVal(0), hl + cl - 512))]
 
     hl = 12 if embedded else 4
-    return FnContract(FILE, "SparseDisk._read_compressed_grain", ["C02", "C11", "C13"], lambda: GrainModel(embedded),
+    return FnContract(FILE, "SparseDisk._read_compressed_grain", ["C02", "C08", "C11", "C13"], lambda: GrainModel(embedded),
                       params=lambda m: {"self": ObjV("self"), "sector": IntV(s0)},
                       # wf: the grain marker and its payload lie inside the file
                       requires=lambda m: m.hyps + [s0 >= 0, s0 * 512 + 512 <= m.fsize,
